@@ -209,7 +209,23 @@ def run_C04(run):
                       CHECKER)
 
 
-TABLE = {"C04": run_C04, "C02": run_C02, "C10": run_C10, "C08": run_C08, "C17": run_C17, "C12": run_C12}
+# ------------------------------------------------------------------------------------------ C09
+def run_C09(run):
+    cfgs = [("Gen_C09", []), ("Gen_C09_LH", ["-DGLM_FORCE_LEFT_HANDED"])]
+    stats = par([lambda m=m, fl=fl: run.build_trace("tr_C09", m, ["-DVT_NO_ASSERT"] + fl) for m, fl in cfgs])
+    trace_cov(run, stats)
+    gens = [os.path.join(run.dir, m + ".v") for m, _ in cfgs if os.path.exists(os.path.join(run.dir, m + ".v"))]
+    run.prove(gens, [], ["C09/P_C09.v", "C09/P_C09_lookat.v"], "C09/Properties_C09.v")
+    fails = oracle_sweep(run, "C09", [("rh", []), ("lh", ["-DGLM_FORCE_LEFT_HANDED"])], run.tier)
+    run.fails = run.triage(fails)
+    run.assumptions = ["real-number semantics of the traced float expressions",
+                       "partial: decompose/recompose, interpolate, extractMatrixRotation, axisAngle, up-in-+y-half-plane and orthonormality of the lookAt rotation block are exercised by oracle_C09 only (testing), not proved"]
+    return run.finish(TRUST_COMMON + ["oracle_C09.cpp (violation search; the only check of decompose and of the lookAt orthonormality/up-direction clauses)"],
+                      "theorems: all matrix/vector/angle values symbolic; oracle: random base matrices, axes scaled 1e-3..50, angles over +-2 turns, eye/center/up triples, T*R*K*S compositions with and without skew, float and double, RH and LH builds",
+                      CHECKER)
+
+
+TABLE = {"C09": run_C09, "C04": run_C04, "C02": run_C02, "C10": run_C10, "C08": run_C08, "C17": run_C17, "C12": run_C12}
 
 
 def replay(pid, path):
